@@ -121,6 +121,25 @@ pub assume_specification<'b, T: ?Sized, U: ?Sized, F: FnOnce(&T) -> &U> [Ref::<'
     requires f.requires((ref_val(&orig),)),
     ensures f.ensures((ref_val(&orig),), ref_val(&r));
 
+// ---- RefMut: the guard of a mutable runtime borrow. Functional value AT ACQUISITION only: what is written through the guard
+// afterwards is interior mutation and is not reflected in rc_val (nothing in the verified code writes through a guard; the
+// user closure of the *_borrow! queries does, after the contracts below have been used). The call may panic (BorrowMutError)
+// -- not an obligation, see C11.
+#[verifier::accept_recursive_types(T)]
+#[verifier::external_type_specification]
+#[verifier::external_body]
+pub struct ExRefMut<'b, T: ?Sized + 'b>(RefMut<'b, T>);
+
+pub uninterp spec fn refmut_val<'a, T: ?Sized>(c: &RefMut<'a, T>) -> &'a T;
+
+pub assume_specification<'b, T: ?Sized> [RefCell::<T>::borrow_mut] (c: &'b RefCell<T>) -> (r: RefMut<'b, T>)
+    ensures refmut_val(&r) == rc_val(c);
+
+// RefMut::map: the projected guard shows what the projection returns for the guarded value
+pub assume_specification<'b, T: ?Sized, U: ?Sized, F: FnOnce(&mut T) -> &mut U> [RefMut::<'b, T>::map::<U, F>] (orig: RefMut<'b, T>, f: F) -> (r: RefMut<'b, U>)
+    requires forall|x: &mut T| #![trigger f.requires((x,))] &*x == refmut_val(&orig) ==> f.requires((x,)),
+    ensures exists|x: &mut T, o: &mut U| &*x == refmut_val(&orig) && #[trigger] f.ensures((x,), o) && &*o == refmut_val(&r);
+
 // ---- MaybeUninit
 pub uninterp spec fn mu_val<T>(m: MaybeUninit<T>) -> Option<T>;
 
